@@ -6,6 +6,9 @@ CONSTANTS
   FirstT = 0
   MaxT = 5
   Kinds = {"f", "sf", "h", "sh"}
+  RunGaps = {}
+  RunLens = {}
+  MaxRuns = 0
   Sels <- SelsA
   Offs <- OffsQuick
   Ats <- AtsQuick
